@@ -2046,6 +2046,10 @@ UNREPRESENTABLE = [
     ("move number beyond the ply counter", "4k3/8/8/8/8/8/8/4K3 w - - 0 16385"),
     ("move number beyond the ply counter", "4k3/8/8/8/8/8/8/4K3 b - - 0 20000"),
     ("move number far beyond", "4k3/8/8/8/8/8/8/4K3 w - - 0 999999999"),
+    ("side not to move in check (rook)", "4k3/8/8/8/8/8/8/4RK2 w - - 0 1"),
+    ("side not to move in check (pawn)", "8/8/8/3k4/4P3/8/8/4K3 w - - 0 1"),
+    ("side not to move in check (knight, black to move)", "4k3/8/8/8/8/5n2/8/4K3 b - - 0 1"),
+    ("kings adjacent", "8/8/8/8/8/8/4k3/4K3 w - - 0 1"),
     ("rank with nine files by digits", "4k3/8/8/8/8/8/8/4K4 w - - 0 1"),
     ("rank overflow by digits", "4k3/8/8/8/8/8/8/88K w - - 0 1"),
     ("rank overflow by digits", "4k3/8/8/8/8/8/8/8K w - - 0 1"),
@@ -2088,6 +2092,24 @@ def check_C08(ctx):
         g = run_batch(HDRV, [f"fen\t{hexs(f)}"])[0]
         if g != "fenerr":
             ctx.violation("fen-unrep:" + f, {"kind": "input", "lines": [f"position {f}"], "what": f"unrepresentable position ({what}) is not rejected: " + ("accepted" if (g or "").startswith("ok") else "crash"), "engine": (g or "")[:200]})
+    # positions of the pool whose mover is in check, with the turn flipped: the side not to move is then in check -
+    # not a chess position (its king could be captured); must be rejected like the other unrepresentable ones
+    sg = run_batch(MDRV, [f"sgen\t{f}" for f in valid])
+    flipped = []
+    for f, r in zip(valid, sg):
+        if kv(r).get("chk") == "1":
+            parts = f.split()
+            parts[1] = "b" if parts[1] == "w" else "w"
+            parts[3] = "-"
+            flipped.append(" ".join(parts))
+    flipped = flipped[:ctx.size(150, 5000)]
+    gf = run_batch(HDRV, [f"fen\t{hexs(f)}" for f in flipped])
+    ctx.co["co_fen_opponent_in_check"] = len(flipped)
+    for f, g in zip(flipped, gf):
+        ctx.case("oppcheck:" + f)
+        ctx.bump("opponent_in_check_fens")
+        if g != "fenerr":
+            ctx.violation("fen-oppcheck:" + f, {"kind": "input", "lines": [f"position {f}", "perft 3"], "what": "FEN in which the side not to move is in check is not rejected: " + ("accepted" if (g or "").startswith("ok") else "crash"), "engine": (g or "")[:200]})
     # malformed stream: near-valid mutations and random bytes; total = error, never a crash; Go vs model class
     muts = []
     alphabet = "pnbrqkPNBRQK12345678/ wb-KQkqabcdefgh0369"
